@@ -588,6 +588,52 @@ impl<'p> Runner<'p> {
         })
     }
 
+    /// Saved cases (shrunk failures of the past, probes of fixed findings) are replayed first, in
+    /// strict mode: /verif/regress/<ID>/*.json.
+    pub fn run_regressions(&mut self) {
+        let dir = format!("{}/regress/{}", verif_dir(), self.prop.id);
+        let Ok(rd) = std::fs::read_dir(&dir) else { return };
+        let mut files: Vec<String> = rd.filter_map(|e| e.ok()).map(|e| e.path().display().to_string()).filter(|p| p.ends_with(".json")).collect();
+        files.sort();
+        let mut n = 0u64;
+        let mut obs = Obs::default();
+        for f in files {
+            let Ok((p, kind, data)) = read_replay(&f) else {
+                eprintln!("note: unreadable regression file {f}");
+                continue;
+            };
+            if p != self.prop.id || !self.prop.subchecks.iter().any(|s| s.kind == kind) {
+                continue;
+            }
+            n += 1;
+            let was = self.strict;
+            self.strict = true;
+            let r = self.replay(&kind, &data);
+            self.strict = was;
+            obs.begin(false);
+            obs.nontrivial(fingerprint(&f));
+            obs.commit();
+            if let Err(fl) = r {
+                if self.is_known(&fl.signature) {
+                    continue;
+                }
+                self.violations.push(Violation { kind, data, failure: Failure::new(fl.signature, format!("regression case {f}: {}", fl.msg)) });
+                break;
+            }
+        }
+        if n > 0 {
+            self.reports.push(StepReport {
+                kind: "regressions".into(),
+                what: "saved cases replayed in strict mode".into(),
+                mode: format!("{n} saved cases from regress/{}", self.prop.id),
+                evaluations: n,
+                exhaustive: false,
+                obs,
+                tolerated: BTreeMap::new(),
+            });
+        }
+    }
+
     pub fn run_plan(&mut self) {
         let steps = (self.prop.plan)(self.tier);
         for step in steps {
